@@ -28,6 +28,9 @@ def generate(rng, idx, tier, variant):
     }
     ops = []
     for _ in range(rng.randint(2, 5)):
+        if rng.random() < 0.1:
+            # the instance-level check list is the user's to extend (here: by a variable no equation assigns)
+            ops.append({'op': 'grow_check', 'k': rng.randrange(4)})
         if ops and rng.random() < 0.2:
             # history: the model is replaced by a reindexed version of itself (shifted, shrunk or grown)
             dn = rng.choice([0, 0, -1, -2, 1, 2])
@@ -137,6 +140,15 @@ def execute(schedule, ctx):
             ctx.log(step, 'reindex', n)
             ctx.outcome('reindex', 'ok')
             continue
+        if op['op'] == 'grow_check':
+            if nonendo:
+                nm_ = nonendo[op['k'] % len(nonendo)]
+                if nm_ not in m.__dict__['check']:
+                    m.__dict__['check'].append(nm_)
+                    ctx.probe('history:check-list-grown')
+            ctx.log(step, 'grow_check')
+            ctx.outcome('grow_check', 'ok')
+            continue
         if op['op'] == 'poke':
             if op['name'] in names and 0 <= op['pos'] < n:
                 m.__dict__['_' + op['name']][op['pos']] = probes.fval(op['v'])
@@ -198,6 +210,11 @@ def execute(schedule, ctx):
         # ---- frame: only cells of the requested periods may change
         bad = [c for c in changed if c[1] not in positions]
         chk('frame/other-period-changed', not bad, {'changed': bad[:8], 'positions': positions, 'op': op['op'], 'opts': opts})
+        if out['kind'] == 'raise' and len(positions) > 1:
+            # the run stopped part-way: periods after the one being solved (or about to be solved) must be as they were
+            reached = max([r['tn'] for r in ctl.log] + [positions[0] - 1]) + 1
+            later = [c for c in changed if c[1] > reached]
+            chk('frame/later-period-changed-after-failure', not later, {'changed': later[:8], 'stopped-at-or-before': reached, 'positions': positions})
         # ---- up-front rejections change nothing at all
         rejected = False
         if opts['min_iter'] > opts['max_iter']:
@@ -215,7 +232,7 @@ def execute(schedule, ctx):
             if opts['offset']:
                 for nm in endo:
                     start[nm][tn] = snap[nm][tn + opts['offset']]
-            if any(not np.isfinite(start[nm][tn]) for nm in check):
+            if any(not np.isfinite(start[nm][tn]) for nm in m.__dict__['check']):
                 rejected = True
                 ctx.probe('rejected:preexisting-nonfinite' + ('+offset' if opts['offset'] else ''))
                 chk('reject/preexisting-raises', cls_out == 'SolutionError', {'got': cls_out})
